@@ -1,7 +1,7 @@
 """Single table from which MANIFEST.json is generated (bin/mkmanifest)."""
 CHECKS = {
     "C01": dict(
-        module="KMCertGate",
+        module="KMCertGate + KMCertFlow",
         technique="TLA+ decision model (TLC exhaustive over the table) + TLC-generated rows replayed on the real "
                   "certGenHandler + TLC trace monitor naming failed requirement guards",
         text="TLC checks on the whole decision table (every subset of the nine acceptable-method names x credential "
@@ -9,7 +9,11 @@ CHECKS = {
              "the statement; the same rows are exported by TLC, executed against the real handler behind the real mux "
              "with really signed cookies and really verified certificate chains, and every recorded response is "
              "replayed through the specification by a TLC monitor. Model checking bound to the code by trace "
-             "validation is the right level: the property is a finite decision whose every cell can be visited.",
+             "validation is the right level: the property is a finite decision whose every cell can be visited. "
+             "KMCertFlow adds flows: a start session, one escalation attempt through the daemon's own session-issuing "
+             "endpoints (CLI token exchange below the web-UI level, a second-factor endpoint called with another "
+             "principal's IP-restricted certificate and the user's cookie), then the certificate request with whatever "
+             "session came back; issued only if what the user REALLY proved entitles them.",
         note="Trusted: TLC, Go crypto/x509/ssh/jose parsers used to project responses, the harness credential factory "
              "(mints what the abstract credential shape says), a fake password backend. Reading: 'password' listed "
              "= any currently valid credential qualifies (DESIGN 3.7).",
